@@ -173,7 +173,9 @@ def run_plan_case(ctx, uberjob, rng, props, found, barrier_width=None):
     workers = rng.choice([1, 1, 2, 4, ncalls + 2])
     max_errors = rng.choice([0, 0, 1, None])
     scheduler = rng.choice([None, "default", "random"])
-    case = {"ncalls": ncalls, "deps": [sorted(d) for d in deps], "failing": sorted(failing), "output": outkind,
+    # retry only matters for calls that fail (those are counted by C10's retry grids): with no failing call every call runs once
+    retry = rng.choice([None, None, 2, 3]) if not failing else None
+    case = {"ncalls": ncalls, "retry": retry, "deps": [sorted(d) for d in deps], "failing": sorted(failing), "output": outkind,
             "wanted": sorted(wanted), "workers": workers, "max_errors": max_errors, "scheduler": scheduler, "exc": list(exc_kinds)}
     before = set(threading.enumerate())
     box = {}
@@ -181,7 +183,7 @@ def run_plan_case(ctx, uberjob, rng, props, found, barrier_width=None):
     def target():
         try:
             box["o"] = ("returned", uberjob.run(plan, output=output, max_workers=workers, max_errors=max_errors,
-                                                scheduler=scheduler, progress=None))
+                                                scheduler=scheduler, progress=None, retry=retry))
         except uberjob.CallError as e:
             box["o"] = ("raised", e)
         except BaseException as e:  # noqa
@@ -303,7 +305,8 @@ def multi_run_case(ctx, uberjob, rng, found):
         rec.log = []
         workers = rng.choice([1, 3])
         try:
-            res = uberjob.run(plan, output=output, max_workers=workers, scheduler=rng.choice([None, "random"]), progress=None)
+            res = uberjob.run(plan, output=output, max_workers=workers, scheduler=rng.choice([None, "random"]), progress=None,
+                              retry=rng.choice([None, 2, 4]))
             err = None
         except BaseException as e:      # noqa
             res, err = None, e
